@@ -614,6 +614,10 @@ class Observation(BaseSourceSpectrum):
                     bin_edges = self.bin_edges.value
                 else:
                     bin_edges = binning.calculate_bin_edges(x).value
+                    # searchsorted needs ascending edges
+                    if bin_edges[0] > bin_edges[-1]:
+                        bin_edges = bin_edges[::-1]
+                        y = y[::-1]
                 i1 = np.searchsorted(bin_edges, w1) - 1
                 i2 = np.searchsorted(bin_edges, w2)
                 influx = y[i1:i2]
